@@ -519,6 +519,14 @@ func (g *G) genRep(p *Profile, idx int, approx time.Time, conditional bool) Rep 
 var hosts = []string{"a.test", "b.test"}
 var paths = []string{"/x", "/y"}
 
+// queryVariant: the same resource path with a query (another resource: the key includes the query)
+func queryVariant(u string) string {
+	if strings.ContainsAny(u, "?#") {
+		return u
+	}
+	return u + "?add=1"
+}
+
 // resources beyond the first four are near misses of http://a.test/x: they differ from it (and from one
 // another) in exactly one component, in ways a sloppy key function would confuse
 var nearMisses = []string{
@@ -591,6 +599,9 @@ func (g *G) genCase(p *Profile, id string) *Case {
 		rq := Req{Gap: gap, Method: "GET", URL: g.urlFor(res, g.chance(p.PSpelling))}
 		if g.chance(p.PUnsafe) {
 			rq.Method = p.Methods[g.intn(len(p.Methods))]
+			if p.PLocation > 0 && res < 4 && g.chance(0.2) {
+				rq.URL = queryVariant(rq.URL) // POST /x?add=1 answered with Location: /x
+			}
 		}
 		rq.Hdrs = g.selectingHeaders()
 		if g.chance(p.PReqCC) {
@@ -608,8 +619,8 @@ func (g *G) genCase(p *Profile, id string) *Case {
 		}
 		if g.chance(p.PAdvVary) {
 			// values that look like other names and values glued together
-			rq.Hdrs = append(rq.Hdrs[:0:0], Hdr{"X-Custom", []string{g.pick("1", "1X-Other2", "aAccept-Encodinggzip", "b", "-Id42")}},
-				Hdr{"X-Other", []string{g.pick("2", "", "b")}})
+			rq.Hdrs = append(rq.Hdrs[:0:0], Hdr{"X-Custom", []string{g.pick("1", "1X-Other2", "aAccept-Encodinggzip", "b", "-Id42", "1;X-Other=2", "1, X-Other: 2", "1&X-Other=2")}},
+				Hdr{"X-Other", []string{g.pick("2", "", "b", "2")}})
 			if g.chance(0.5) {
 				rq.Hdrs = rq.Hdrs[:1]
 			}
@@ -701,7 +712,7 @@ func init() {
 	profiles["hit"] = derive("hit", func(p *Profile) {
 		p.NReq = [2]int{3, 7}
 		p.PSpelling, p.PReqCC, p.PNoCache, p.PMustReval, p.PUnsafe = 0.7, 0.1, 0.03, 0.05, 0.02
-		p.PHeuristic, p.URLs, p.PVary, p.PErrReply, p.PRange, p.PLocation = 0.35, 2, 0.4, 0.02, 0.0, 0.0
+		p.PHeuristic, p.URLs, p.PVary, p.PErrReply, p.PRange, p.PLocation = 0.35, 2, 0.4, 0.02, 0.06, 0.0
 		p.Statuses = []int{200, 200, 200, 203, 301, 404, 405, 410, 414, 501, 308, 204, 302}
 		p.PLongURL = 0.15
 	})
@@ -922,6 +933,32 @@ func (g *G) genGluedVaryCase(p *Profile, id string) *Case {
 	return c
 }
 
+// genSaturatedAgeCase (C01): a stored age that saturates (an Age of 2^63 ns and more, in seconds) meets directives that
+// add to it or compare it with a window: stale-while-revalidate, max-stale, min-fresh.  Staleness far beyond any
+// window must stay outside it, whatever the arithmetic does at the top of the range.
+func (g *G) genSaturatedAgeCase(p *Profile, id string) *Case {
+	c := &Case{ID: id, Stream: "M", SWRTimeout: 0}
+	res := g.intn(2)
+	age := g.pick("9223372037", "9223372036", "9223372036854775807", "99999999999999999999", "9223372035")
+	cc := g.pick("max-age=0, stale-while-revalidate=30", "max-age=1, stale-while-revalidate=60", "max-age=60, stale-while-revalidate=3600",
+		"max-age=0, stale-if-error=30", "max-age=9223372036, stale-while-revalidate=5")
+	first := tRep(0, 200, cc, Hdr{"Age", []string{age}}, Hdr{"ETag", []string{`"v1"`}})
+	rcc := g.pick("", "", "max-stale=30", "min-fresh=5", "max-stale")
+	var h []Hdr
+	if rcc != "" {
+		h = []Hdr{{"Cache-Control", []string{rcc}}}
+	}
+	c.Reqs = []Req{{Gap: time.Second, Method: "GET", URL: g.urlFor(res, false)},
+		{Gap: g.pickD(time.Second, 900*time.Millisecond, 10*time.Second), Method: "GET", URL: g.urlFor(res, false), Hdrs: h},
+		{Gap: time.Second, Method: "GET", URL: g.urlFor(res, false)}}
+	c.Script = []ScriptEntry{{Delay: g.pickD(0, 900*time.Millisecond), Plain: first, Cond: first}}
+	for i := 1; i < 7; i++ {
+		r := tRep(i, 200, "max-age=60", Hdr{"ETag", []string{`"v2"`}})
+		c.Script = append(c.Script, ScriptEntry{Plain: r, Cond: r})
+	}
+	return c
+}
+
 // genFor: the generator of case number i of a profile (targeted shapes are mixed into some profiles)
 func (g *G) genFor(p *Profile, id string, i int) *Case {
 	g.noVaryCC = p.Name == "spell"
@@ -934,6 +971,8 @@ func (g *G) genFor(p *Profile, id string, i int) *Case {
 		return g.genTwoMatchCase(p, id)
 	case p.Name == "vary" && i%20 == 7:
 		return g.genGluedVaryCase(p, id)
+	case (p.Name == "fresh" || p.Name == "age") && i%25 == 9:
+		return g.genSaturatedAgeCase(p, id)
 	}
 	return g.genCase(p, id)
 }
